@@ -134,6 +134,8 @@ class ModuleInfo:
         from .localroles import canonicalise, canonical_comparisons
         # locals that merely name a long-lived holder object (`tree = self.tree`, `parser = self.parser`) are written out
         self.aliases_inlined = inline_stable_aliases(self.tree) if not os.environ.get("VERIF_NO_ALIAS_INLINE") else 0
+        # `self.a, self.b = x, y` is read as the two assignments it abbreviates (when that is the same program)
+        self.parallel_split = split_parallel_assignments(self.tree) if not os.environ.get("VERIF_NO_PARALLEL_SPLIT") else 0
         # `x = a if c else b` / `return a if c else b` are read as the if / else statement they abbreviate
         self.ifexp_lowered = lower_conditional_statements(self.tree) if not os.environ.get("VERIF_NO_IFEXP_LOWERING") else 0
         self.comparisons_mirrored = canonical_comparisons(self.tree) if not os.environ.get("VERIF_NO_CANON") else 0
@@ -492,6 +494,63 @@ def lower_conditional_statements(tree: ast.AST) -> int:
                 st.test = st.test.operand
                 st.body, st.orelse = st.orelse, st.body
                 count[0] += 1
+    walk_body(tree.body)
+    if count[0]:
+        ast.fix_missing_locations(tree)
+    return count[0]
+
+
+def split_parallel_assignments(tree: ast.AST) -> int:
+    """In place: `a.x, b = v1, v2` becomes `a.x = v1` / `b = v2` when that is the same program: the targets are plain names or
+    attribute chains, at least one of them an attribute (pure name swaps and unpackings are left alone), no later value reads an
+    earlier target, and a later value contains no call other than a constructor-like `Name(..)` whose arguments mention no target.
+    Rules that collect the attribute stores of a function then see both spellings alike.  Returns the number rewritten."""
+    count = [0]
+
+    def simple_target(t):
+        return isinstance(t, ast.Name) or (isinstance(t, ast.Attribute) and attr_chain(t) is not None and not any("[" in a or "(" in a for a in attr_chain(t)))
+
+    def splittable(st):
+        if not (isinstance(st, ast.Assign) and len(st.targets) == 1 and isinstance(st.targets[0], ast.Tuple) and isinstance(st.value, ast.Tuple)):
+            return False
+        ts, vs = st.targets[0].elts, st.value.elts
+        if len(ts) != len(vs) or not all(simple_target(t) for t in ts) or not any(isinstance(t, ast.Attribute) for t in ts):
+            return False
+        if any(isinstance(v, ast.Starred) for v in vs):
+            return False
+        tnames = [unparse(t) for t in ts]
+        roots = {(attr_chain(t) or [unparse(t)])[0] for t in ts}
+        for j, v in enumerate(vs):
+            if j == 0:
+                continue
+            txt = unparse(v)
+            if any(tn in txt for tn in tnames[:j]):
+                return False
+            for c in ast.walk(v):
+                if isinstance(c, ast.Call):
+                    if not isinstance(c.func, ast.Name):
+                        return False
+                    if any(isinstance(x, ast.Name) and x.id in roots for a in list(c.args) + [k.value for k in c.keywords] for x in ast.walk(a)):
+                        return False
+        return True
+
+    def walk_body(body):
+        i = 0
+        while i < len(body):
+            st = body[i]
+            for field in ("body", "orelse", "finalbody"):
+                sub = getattr(st, field, None)
+                if isinstance(sub, list) and sub and isinstance(sub[0], ast.stmt):
+                    walk_body(sub)
+            for h in getattr(st, "handlers", []) or []:
+                walk_body(h.body)
+            if splittable(st):
+                parts = [ast.copy_location(ast.Assign(targets=[t], value=v, type_comment=None), st) for t, v in zip(st.targets[0].elts, st.value.elts)]
+                body[i:i + 1] = parts
+                count[0] += 1
+                i += len(parts)
+                continue
+            i += 1
     walk_body(tree.body)
     if count[0]:
         ast.fix_missing_locations(tree)
